@@ -282,3 +282,148 @@ func runChildReset(rc *RuleCtx) {
 		}
 	}
 }
+
+func init() {
+	register(&Rule{
+		Name:     "SETSLOT",
+		Doc:      "a function of the generic packages that replaces the value of a PathNode slot with a caller-supplied Node (a store of a Node-typed parameter into the `Node` field of a *PathNode) also re-assigns that slot's `Next` in the same function: the children that were loaded for the old value are not children of the new one, and Marshal prefers `Next` over the node's own bytes — the edit would be lost; (b) a function that computes `exist` from the slot's `Path.t` and stores a Node into the slot also assigns the slot's `Path` (an empty by-id slot has none: the new field would be marshalled under id 0)",
+		Configs:  "NP",
+		Floor:    map[string]int{"N": 5, "P": 5},
+		Controls: 1,
+		Run:      runSetSlot,
+	})
+}
+
+// slotSetters: methods whose receiver is a *PathNode and that store a Node-typed parameter into the
+// receiver's Node field (a helper like setNode): a call of one is a slot replacement at the call site.
+func slotSetters(w *World) map[*ssa.Function]bool {
+	out := map[*ssa.Function]bool{}
+	for _, fn := range w.Funcs {
+		if fn.Blocks == nil || fn.Signature.Recv() == nil || len(fn.Params) < 2 {
+			continue
+		}
+		for _, b := range fn.Blocks {
+			for _, ins := range b.Instrs {
+				st, ok := ins.(*ssa.Store)
+				if !ok {
+					continue
+				}
+				fa, ok := st.Addr.(*ssa.FieldAddr)
+				if !ok || fa.X != ssa.Value(fn.Params[0]) {
+					continue
+				}
+				if _, n, ok := fieldNameOf(fa); ok && n == "Node" {
+					if p, ok := st.Val.(*ssa.Parameter); ok && p != fn.Params[0] {
+						out[fn] = true
+					}
+				}
+			}
+		}
+	}
+	return out
+}
+
+func runSetSlot(rc *RuleCtx) {
+	setters := slotSetters(rc.W)
+	for _, fn := range rc.W.Funcs {
+		pr := pkgRel(fn)
+		if fn.Blocks == nil || (pr != "thrift/generic" && pr != "proto/generic") {
+			continue
+		}
+		type slotInfo struct {
+			nodeStore *ssa.Store
+			viaSetter *ssa.Call
+			nextStore bool
+			pathStore bool
+			readsPath bool
+		}
+		slots := map[ssa.Value]*slotInfo{}
+		get := func(v ssa.Value) *slotInfo {
+			if slots[v] == nil {
+				slots[v] = &slotInfo{}
+			}
+			return slots[v]
+		}
+		for _, b := range fn.Blocks {
+			for _, ins := range b.Instrs {
+				switch x := ins.(type) {
+				case *ssa.Store:
+					fa, ok := x.Addr.(*ssa.FieldAddr)
+					if !ok {
+						continue
+					}
+					owner, n, ok := fieldNameOf(fa)
+					if !ok || typeShort(owner) != pr+".PathNode" {
+						continue
+					}
+					si := get(fa.X)
+					switch n {
+					case "Node":
+						if _, fresh := fa.X.(*ssa.Alloc); fresh {
+							continue // a PathNode under construction (composite literal): its Next is empty
+						}
+						if p, ok := x.Val.(*ssa.Parameter); ok && typeShort(p.Type()) == pr+".Node" {
+							if fn.Signature.Recv() != nil && len(fn.Params) > 0 && p == fn.Params[0] {
+								continue // the receiver itself (GetTree roots a tree at self), not a caller-supplied replacement
+							}
+							si.nodeStore = x
+						}
+					case "Next":
+						si.nextStore = true
+					case "Path":
+						si.pathStore = true
+					}
+				case *ssa.Call:
+					// v.setNode(val): the helper replaces Node (and is itself checked for Next)
+					if cal := x.Call.StaticCallee(); cal != nil && setters[cal] && len(x.Call.Args) > 0 {
+						si := get(x.Call.Args[0])
+						si.viaSetter = x
+						si.nextStore = true
+					}
+				case *ssa.FieldAddr:
+					// `x.Path.t != 0` / `== 0`: the emptiness test of a slot
+					if _, n, ok := fieldNameOf(x); ok && n == "t" && x.Referrers() != nil {
+						if inner, ok := x.X.(*ssa.FieldAddr); ok {
+							if owner, n2, ok := fieldNameOf(inner); ok && n2 == "Path" && typeShort(owner) == pr+".PathNode" {
+								for _, r := range *x.Referrers() {
+									ld, ok := r.(*ssa.UnOp)
+									if !ok || ld.Referrers() == nil {
+										continue
+									}
+									for _, rr := range *ld.Referrers() {
+										if bo, ok := rr.(*ssa.BinOp); ok && (bo.Op == token.NEQ || bo.Op == token.EQL) {
+											if k, isC := constInt(bo.Y); isC && k == 0 {
+												get(inner.X).readsPath = true
+											}
+										}
+									}
+								}
+							}
+						}
+					}
+				}
+			}
+		}
+		for _, si := range slots {
+			if si.nodeStore == nil && si.viaSetter == nil {
+				continue
+			}
+			pos := token.NoPos
+			if si.nodeStore != nil {
+				pos = si.nodeStore.Pos()
+			} else {
+				pos = si.viaSetter.Pos()
+			}
+			rc.Examined++
+			rc.verdict(si.nextStore, fn, "slot value replaced", pos, map[bool]string{
+				true:  "the slot's Next is re-assigned together with its Node",
+				false: "the slot's Node is replaced by the caller's value but its Next keeps the children loaded for the OLD value: Marshal emits those, the edit is lost"}[si.nextStore], true)
+			if si.readsPath {
+				rc.Examined++
+				rc.verdict(si.pathStore, fn, "empty slot gets its path", pos, map[bool]string{
+					true:  "a slot found empty (Path.t == 0) is given its Path",
+					false: "the function tests the slot's Path.t (empty slot?) and stores the value, but never assigns the slot's Path: a value stored into an empty by-id slot is marshalled under id 0 and is not found by Field(id)"}[si.pathStore], true)
+			}
+		}
+	}
+}
